@@ -444,7 +444,7 @@ def seq_def(xs) -> Def:
 
 CLAMPS_0 = [(-D, D), (-D // 2, D // 2)]          # contain 0
 CLAMPS_X = [(D // 4, 3 * D // 4)]                # validator-accepted, exclude 0
-CLAMPS_N = [(-3 * D // 4, -D // 4)]
+# a range below 0 is rejected by the validator (floor >= 0 must be <= clamp_max) unless floor is NaN: see c18_traces.EXTREMES
 
 
 def base_consts(**over) -> Dict[str, Any]:
@@ -574,7 +574,7 @@ def check(run) -> None:
     run_family(run, "dyn0", dyn, False)
     if q:       # one more operation of history on a narrower configuration alphabet
         run_family(run, "dyn3", dict(dyn, AlphaDens=[2], Clamps=clamp_def([(-D // 2, D // 2)]), Floors=[D // 8], MaxDepth=3), False)
-    dynx = dict(dyn, Clamps=clamp_def(CLAMPS_X if q else CLAMPS_X + CLAMPS_N), Floors=[0, D // 8] if not q else [0],
+    dynx = dict(dyn, Clamps=clamp_def(CLAMPS_X), Floors=[0, D // 8] if not q else [0],
                 Ops=["observe", "tick", "promote"] if q else dyn["Ops"])
     run_family(run, "dynx", dynx, True)
     # ---- C: maintenance on 4 base ids (split needs two parts of >= 2 nodes) ------------------------
